@@ -2524,7 +2524,9 @@ evdns_server_request_format_response(struct server_request *req, int err)
 		}
 	}
 
-	if (j > req->max_udp_reply_size && !req->client) {
+	/* A UDP client has its size limit; a TCP message cannot exceed the
+	 * 16-bit length prefix. */
+	if ((j > req->max_udp_reply_size && !req->client) || j > 65535) {
 overflow:
 		j = req->max_udp_reply_size;
 		buf[2] |= 0x02; /* set the truncated bit. */
